@@ -53,6 +53,13 @@ func (a *analyzer) warmedBefore(f *fn, g *fn, pos token.Pos) bool {
 				if id, _ := rootIdent(unconv(x.Args[0])); id != nil {
 					sortedAt[info.Uses[id]] = x.Pos()
 				}
+			} else if _, o, kind := a.calleeName(f.pkg, x); kind == "internal" && !x.Ellipsis.IsValid() {
+				// (S1) a derived sorter
+				if pi := a.sortsParam(a.byObj[o]); pi >= 0 && pi < len(x.Args) {
+					if id, ok := ast.Unparen(x.Args[pi]).(*ast.Ident); ok {
+						sortedAt[info.Uses[id]] = x.Pos()
+					}
+				}
 			}
 			// a helper that returns sorted keys: its result counts as sorted
 		case *ast.RangeStmt:
@@ -235,6 +242,9 @@ type taint struct {
 	origin *site
 	skipLo token.Pos
 	skipHi token.Pos
+	// copyOf: (I1) obj is the slice that a walk over a map fills with one value per element and does
+	// nothing else (the only effect of the body is that append): the elements of the map in walk order
+	copyOf bool
 }
 
 func (a *analyzer) findSites() {
@@ -256,7 +266,8 @@ func (a *analyzer) findSites() {
 				k, v := a.objOf(f, x.Key), a.objOf(f, x.Value)
 				targets := a.classify(s, x.Body, []types.Object{k, v}, k, nil, false)
 				for _, t := range targets {
-					a.queue = append(a.queue, taint{f: f, obj: t.obj, from: x.End(), why: "filled in the order of " + s.text, origin: s, skipLo: x.Pos(), skipHi: x.End()})
+					a.queue = append(a.queue, taint{f: f, obj: t.obj, from: x.End(), why: "filled in the order of " + s.text, origin: s, skipLo: x.Pos(), skipHi: x.End(),
+						copyOf: len(targets) == 1 && len(s.effects) == 1 && strings.HasPrefix(s.effects[0], "append")})
 				}
 			case *ast.CallExpr:
 				name, _, kind := a.calleeName(f.pkg, x)
@@ -376,6 +387,20 @@ func (a *analyzer) isSorter(f *fn, call *ast.CallExpr) bool {
 	return sortFuncs[name] || a.sorters[name]
 }
 
+// sortsArg: the call sorts the argument `node`: a library sorter or a listed one (first argument
+// by convention), or (S1) a derived sorter of the analysed packages called with node at the sorted parameter.
+func (a *analyzer) sortsArg(f *fn, call *ast.CallExpr, node ast.Node) bool {
+	if a.isSorter(f, call) {
+		return true
+	}
+	if _, o, kind := a.calleeName(f.pkg, call); kind == "internal" && !call.Ellipsis.IsValid() {
+		if pi := a.sortsParam(a.byObj[o]); pi >= 0 && pi < len(call.Args) && call.Args[pi] == node {
+			return true
+		}
+	}
+	return false
+}
+
 // follow one tainted variable through its function.
 func (a *analyzer) follow(t taint) {
 	key := fmt.Sprintf("%p/%p/%d/%p", t.f, t.obj, t.from, t.origin)
@@ -419,7 +444,7 @@ func (a *analyzer) follow(t taint) {
 			if kind == "builtin" && (name == "len" || name == "cap") {
 				continue
 			}
-			if a.isSorter(f, x) {
+			if a.sortsArg(f, x, node) {
 				return // sorted from here on
 			}
 			if kind == "builtin" && name == "append" {
@@ -460,7 +485,12 @@ func (a *analyzer) follow(t taint) {
 			if x.X != node {
 				continue
 			}
-			s := a.addSite(&site{f: f, pos: x.Pos(), text: a.src(x.X), exprs: prefixAll("order-of ", t.origin.exprs), keyUsed: used(x.Key), valUsed: used(x.Value),
+			exprs := prefixAll("order-of ", t.origin.exprs)
+			if t.copyOf && t.origin.f == f && t.origin.kind == "map" {
+				// (I1) the second half of a map walk split in two: keyed (and counted) as the walk over the map itself
+				exprs = t.origin.exprs
+			}
+			s := a.addSite(&site{f: f, pos: x.Pos(), text: a.src(x.X), exprs: exprs, keyUsed: used(x.Key), valUsed: used(x.Value),
 				kind: "inherited", viaOrder: t.why})
 			if s.class == "" {
 				k, v := a.objOf(f, x.Key), a.objOf(f, x.Value)
